@@ -242,6 +242,21 @@ let handle (x : sx) : ostring =
       (match Obj.magic (run_onlmon pk f (Obj.magic (List.map env_of envs))) with
        | None -> "ONLMON BAD"
        | Some outs -> "ONLMON " ^ OS.concat " ; " (List.map (fun l -> OS.concat " " (List.map show_s l)) outs))
+  | L [A "onlforest"; pk; L fs; L qs; L envs] ->
+      let pk = pk_of_sx pk and fs = List.map formula_of_sx fs and qs = List.map formula_of_sx qs in
+      let smp = function L [t; v] -> (z_of_int (int_of_string (atom t)), (Obj.magic (extz_of_string (atom v)) : v)) | _ -> failwith "sample" in
+      let sig_of = function L l -> List.map smp l | _ -> failwith "sig" in
+      let env_of = function L l -> List.map sig_of l | _ -> failwith "env" in
+      let show_t = function TInf -> "inf" | T z -> string_of_int (int_of_z z) in
+      let show_s (t, v) = show_t t ^ ":" ^ string_of_extz (Obj.magic v) in
+      let show_l l = OS.concat " " (List.map show_s l) in
+      let show_o = function None -> "_" | Some l -> show_l l in
+      (match Obj.magic (run_onlforest pk fs qs (Obj.magic (List.map env_of envs))) with
+       | None -> "ONLFOREST BAD"
+       | Some (rets, rs) ->
+           "ONLFOREST " ^ OS.concat " ; " (List.map show_l rets) ^ " | GET " ^
+           OS.concat " ; " (List.map (fun (vs, _) -> OS.concat " , " (List.map show_l vs)) rs) ^ " | SUB " ^
+           OS.concat " ; " (List.map (fun (_, os) -> OS.concat " , " (List.map show_o os)) rs))
   | L [A "onlun"; kind; L bs] ->
       let tz_of s = if s = "inf" then TInf else T (z_of_int (int_of_string s)) in
       let smp = function L [t; v] -> (tz_of (atom t), (Obj.magic (extz_of_string (atom v)) : v)) | _ -> failwith "sample" in
